@@ -152,6 +152,7 @@ def setup():
     for cfg in ("u", "n"):
         infra.build_binary(cfg, "extract")
     infra.extraction()
+    infra.translation()
     ok, out, dt = infra.lake_build([])
     if not ok:
         print(out[-4000:])
